@@ -167,3 +167,13 @@ Theorem C02_no_file_over_a_directory : forall dg fc src dst e,
   forall a, List.In a (fst (copy_actions_dd dg true fc src dst e)) -> mutated a = nil.
 Proof. exact copy_onto_directory_refused. Qed.
 Print Assumptions C02_no_file_over_a_directory.
+
+(* the regular-file row of the table follows from the model of CopyHandle::new: whenever Ops.copy_actions_dd refuses (same
+   file apart), the cell is Refused; and a live non-directory entry is renamed to a backup when backups are on *)
+From XcpModel Require Import Ops.
+Theorem C02_file_row_refusals_agree : forall d o fc src dst e,
+  o <> ONoClobber -> ce_dst_exists e = exists_follow d -> ce_same_file e = false ->
+  snd (copy_actions_dd (lexists d && negb (exists_follow d)) (is_real_dir d) fc src dst e) = false ->
+  dest_outcome SFile d o = Refused.
+Proof. exact file_row_refusals_agree. Qed.
+Print Assumptions C02_file_row_refusals_agree.
